@@ -465,19 +465,47 @@ def run_recipe(pp, R, prog, bake=True, uses_as_list=False, carried=None):
 
 # ------------------------------------------------------------------------------------------------ comparison helpers
 
+def set_rel_tol(world, eager, prog):
+    """Relative tolerance for comparing a bake with the eager fold of one program.  The two may differ by a storage
+    grain after any step (bake repeats a fill_to, sums in another order); a later transfer by volume divides by the
+    stored volume of its source, so one grain of volume (1e-10 U of an enzyme is 1e-7 uL) becomes a relative
+    difference of grain / volume in every amount moved.  rel = 4 x steps x (volume of one grain of everything) /
+    (smallest volume handled), at least 1e-11."""
+    ref, cfg = world.ref, world.cfg
+    gvol = cfg.grain * cfg.vol_mult + sum(ref.grain_base(n) * abs(sp.factor('L')) for n, sp in ref.subs.items())
+    vols = []
+    big_amount = big_vol = 0.0
+    for snap in eager.snapshots:
+        for v in snap.values():
+            for _, w in wells_of(v):
+                x = ref.size(world.base(w), 'L')
+                if x > 0:
+                    vols.append(x)
+                big_vol = max(big_vol, abs(w['vol']))
+                big_amount = max([big_amount] + [abs(a) for _, a in w['contents']])
+    nsteps = len(real_steps(prog))
+    # beyond ~1e6 storage units a float cannot hold a grain (ulp of 1.6e7 is 3.7e-9): what is left after nearly all of
+    # such an amount has been moved on carries that ulp, whatever its own size
+    world.abs_tol = 8 * 2.3e-16 * big_amount
+    world.abs_vol = 8 * 2.3e-16 * big_vol
+    world.rel_tol = max(1e-11, min(1e-6, 4 * nsteps * gvol / max(min(vols) if vols else 1e-6, 1e-12)))
+    return world.rel_tol
+
+
 def same_container(world, a_view, b_view, grains=4):
     """views equal up to a few storage grains in amounts/volume; name and capacity exactly"""
     if a_view['name'] != b_view['name'] or a_view['cap'] != b_view['cap']:
         return False
-    g = grains * world.cfg.grain
+    g = grains * world.cfg.grain + getattr(world, 'abs_tol', 0.0)
+    rel = getattr(world, 'rel_tol', 1e-11)
     ca, cb = bench.contents_of(a_view), bench.contents_of(b_view)
     ref = world.ref
     gv = sum(grains * ref.grain_base(n) * abs(ref.subs[n].factor('L')) for n in set(ca) | set(cb)) / world.cfg.vol_mult + g
-    if abs(a_view['vol'] - b_view['vol']) > gv + 1e-11 * abs(a_view['vol']):
+    if abs(a_view['vol'] - b_view['vol']) > gv + getattr(world, 'abs_vol', 0.0) + rel * abs(a_view['vol']):
         return False
     for n in set(ca) | set(cb):
         x, y = ca.get(n, 0.0), cb.get(n, 0.0)
-        if abs(x - y) > g + 1e-11 * max(abs(x), abs(y)):
+        if abs(x - y) > g + rel * max(abs(x), abs(y)):
             return False
     return True
 
@@ -593,6 +621,7 @@ def baked_pair(col, pp, prog, pre_hook=None):
     if eager.exc is not None:
         col.exclude('program does not run eagerly')
         return None
+    set_rel_tol(world, eager, prog)
     seg1, seg2 = split_chain(prog)
     rr = run_recipe(pp, R, seg1)
     offset = 0
